@@ -31,7 +31,7 @@ def exhaustive(tier):
 def required(tier):
     return ["B:n<1000", "B:n%1000==0", "B:n>=10^7", "B:split_sum_differs", "B:n>=2^53", "TS:no_exponent", "TS:exponent", "A:anchor",
             "tick_digits>=10", "leading_zeros", "chart_without_anchors_after_chart_with_anchors", "ambient_decimal_context_lowered",
-            "whole_generated_chart"]
+            "whole_generated_chart", "tempo_events_read_through_every_sequence_form"]
 
 
 def shards(tier, seed):
@@ -60,6 +60,37 @@ def shards(tier, seed):
             out.append({"name": f"digits-{i}", "kind": "digits", "count": 10000})
         out += [{"name": f"charts-{i}", "kind": "charts", "count": 1500} for i in range(8)]
     return out
+
+
+def read_forms(rec, case, out):
+    """"ticks and values are preserved" however the tempo events are read: bpm_events is a sequence (len, integer and negative
+    indices, slices, iteration, reversed, membership) — every read form must show the same events"""
+    be = out.chart.sync_track.bpm_events
+    want = [[t, n / 1000] for t, n in case["truth"]["tempos"]]
+
+    def sig(evs):
+        return [[e.tick, e.bpm] for e in evs]
+
+    n = len(want)
+    forms = {
+        "iteration": lambda: sig(iter(be)), "indices": lambda: sig(be[i] for i in range(len(be))), "slice[:]": lambda: sig(be[:]),
+        "slice[1:]+[0]": lambda: sig([be[0]] + list(be[1:])), "negative indices": lambda: sig(be[i - len(be)] for i in range(len(be))),
+        "slice[::-1]": lambda: sig(be[::-1])[::-1], "reversed": lambda: sig(reversed(be))[::-1], "slice[-2:]": lambda: want[:-2] + sig(be[-2:]) if n >= 2 else want,
+        "slice[n:]": lambda: want + sig(be[n:]), "events attribute": lambda: sig(be.events),
+    }
+    for name, fn in forms.items():
+        rec.ev()
+        try:
+            got = fn()
+        except Exception as e:  # noqa
+            rec.violation("tempo", f"reading the {n} tempo events by {name} raised {harness.exc_str(e)}", {"text": case["text"], "truth": case["truth"]},
+                          f"read-form:{name}:raised")
+            return
+        if got != want:
+            rec.violation("tempo", f"the tempo events read by {name} differ from the written ones: {model._first_diff(want, got)}",
+                          {"text": case["text"], "truth": case["truth"]}, f"read-form:{name}:differs")
+            return
+    rec.cls("tempo_events_read_through_every_sequence_form")
 
 
 def split_sum_differs(n: int) -> bool:
@@ -202,7 +233,7 @@ def run_shard(shard, rec, tier, seed):
     if k == "charts":
         from vmon import mcheck
 
-        mcheck.whole_charts(rec, ("C08",), seed, ID, shard["name"], shard["count"])
+        mcheck.whole_charts(rec, ("C08",), seed, ID, shard["name"], shard["count"], on_ok=lambda case, out: read_forms(rec, case, out))
         return harness.finish(rec)
     if k == "enum":
         ns = list(range(shard["lo"], shard["hi"] + 1))
@@ -259,4 +290,6 @@ def replay(case, rec):
     if case.get("kind") == "tempos":
         judge_tempos(rec, case["ns"], "replay")
     else:
-        mcheck.replay_case(rec, ("C08",), case)
+        res = mcheck.replay_case(rec, ("C08",), case)
+        if res and res[0].ok and not rec.violations:
+            read_forms(rec, case, res[0])
